@@ -250,6 +250,12 @@ class CFG:
             return self._cond(expr.operand, f, t, ctx)
         if isinstance(expr, ast.Constant) and isinstance(expr.value, bool):
             return t if expr.value else f
+        from .astutil import positive
+        pexpr, flipped = positive(expr)
+        if flipped:
+            # atoms are kept in positive form (`a != b` is the F edge of `a == b`): a guard reads the same
+            # whether the source tests the condition or its negation
+            expr, t, f = pexpr, f, t
         n = self._new("cond", expr, [expr])
         self._edge(n.id, "T", t)
         self._edge(n.id, "F", f)
@@ -451,11 +457,11 @@ class CFG:
         blocked = set()
         for n in self.nodes:
             if n.kind == "cond":
-                from .astutil import utext as _ut, canon_text as _ct
+                from .astutil import utext as _ut, gp as _gp
                 txt = _ut(n.exprs[0])
-                if txt in assumptions or txt in {_ct(k) for k in assumptions}:
-                    assumptions = {_ct(k): v for k, v in assumptions.items()}
-                    blocked.add((n.id, "F" if assumptions[txt] else "T"))
+                norm = dict(_gp(k, v) for k, v in assumptions.items())
+                if txt in norm:
+                    blocked.add((n.id, "F" if norm[txt] else "T"))
         return blocked
 
     def dominates(self, a, b, blocked_edges=(), blocked_nodes=()):
